@@ -51,6 +51,8 @@ pub(super) struct Provider {
     /// (start serial, diff) in order.
     pub journal: Arc<Vec<(u32, InMemoryZoneDiff)>>,
     pub have_journal: bool,
+    /// Backward compatible packaging: one record per response message.
+    pub compat: bool,
 }
 
 impl<M> XfrDataProvider<M> for Provider {
@@ -65,7 +67,7 @@ impl<M> XfrDataProvider<M> for Provider {
                 diffs = self.journal[pos..].iter().map(|(_, d)| d.clone()).collect();
             }
         }
-        let data = XfrData::new(self.zone.clone(), diffs, false);
+        let data = XfrData::new(self.zone.clone(), diffs, self.compat);
         Box::pin(std::future::ready(Ok(data)))
     }
 }
@@ -159,7 +161,12 @@ async fn run(_tier: Tier) {
         zone: zone.clone(),
         journal: Arc::new(journal),
         have_journal: ask != Ask::IxfrNoJournal,
+        compat: sim::chance("compat_mode", 1, 4),
     };
+    let compat = provider.compat;
+    if compat {
+        sim::stat("probe.one_record_per_message_mode");
+    }
     // The request.
     let mut mb = MessageBuilder::new_vec();
     mb.header_mut().set_id(sim::draw("id", 65536) as u16);
@@ -289,8 +296,21 @@ async fn run(_tier: Tier) {
                     }
                     Err(e) => {
                         // One record per message IXFR is the known finding
-                        // of the xfr scenario; the server does not do that.
-                        sim::violation(P, "fidelity", "client-rejects-server-output".to_string(), format!("iteration: {:?}", e));
+                        // of the xfr scenario; the server packages like that
+                        // in its backward compatible mode.
+                        let es = format!("{:?}", e);
+                        if compat && ask != Ask::Axfr && es.contains("SingleSoaIxfrTcpRetrySignal") && wires.len() > 1 {
+                            if sim::violation(
+                                P,
+                                "fidelity",
+                                "ixfr-first-message-with-only-the-soa-taken-as-whole-response".to_string(),
+                                format!("the library's own XFR server in compatibility mode sent an IXFR as {} one-record messages; the library's interpreter ended with {}", wires.len(), es),
+                            ) {
+                                return;
+                            }
+                            return; // known finding: nothing more to compare
+                        }
+                        sim::violation(P, "fidelity", "client-rejects-server-output".to_string(), format!("iteration: {}", es));
                         break 'outer;
                     }
                 }
